@@ -163,7 +163,7 @@ pub fn run_case(c: &Case, info: &mut CaseInfo) -> Result<(), Fail> {
     let wide = c.parts.iter().flatten().any(is_wide);
     let all_runs: Vec<&Run> = c.parts.iter().flatten().collect();
     let homog = all_runs.iter().all(|r| r.exp10 == all_runs[0].exp10 && r.shift == all_runs[0].shift)
-        && !all_runs.iter().any(|r| matches!(r.shape, Shape::LogUniform(_)));
+        && !all_runs.iter().any(|r| matches!(r.shape, Shape::LogUniform(_) | Shape::Extreme));
     let acc = if homog { ACC_FACTOR_HOMOG } else { ACC_FACTOR_MIXED };
     let mut digests: Vec<(TDigestMut, Vec<f64>)> = vec![];
     let mut worst = 0.0f64;
@@ -236,7 +236,7 @@ pub fn run_case(c: &Case, info: &mut CaseInfo) -> Result<(), Fail> {
         let d = c.parts.iter().flatten().filter_map(|r| if let Shape::LogUniform(d) = r.shape { Some(d) } else { None }).max().unwrap_or(0);
         let b = match d { 0 => "0", 1 => "1", 2 => "2", 3 => "3", 4..=5 => "4-5", 6..=10 => "6-10", 11..=30 => "11-30", 31..=100 => "31-100", _ => ">100" };
         let runs: Vec<&Run> = c.parts.iter().flatten().collect();
-        let homog = runs.iter().all(|r| r.exp10 == runs[0].exp10 && r.shift == runs[0].shift);
+        let homog = runs.iter().all(|r| r.exp10 == runs[0].exp10 && r.shift == runs[0].shift) && !runs.iter().any(|r| matches!(r.shape, Shape::Extreme));
         info.label(format!("cal:{}:decades={b}:ratio<={}", if homog { "homog" } else { "mixed" }, if worst <= 1.0 { "1" } else if worst <= 2.0 { "2" } else if worst <= 3.0 { "3" } else if worst <= 4.0 { "4" } else if worst <= 6.0 { "6" } else if worst <= 8.0 { "8" } else if worst <= 12.0 { "12" } else if worst <= 16.0 { "16" } else { "inf" }));
     }
     if homog && n > 4 * (2 * c.k as usize + 30) {
